@@ -24,7 +24,7 @@ type Fault struct {
 // Case is one Unpack experiment.
 type Case struct {
 	Pre      fsx.Tree     `json:"pre,omitempty"` // content of dst before Unpack (files and dirs only)
-	Spelling string       `json:"spelling"`      // clean | slash | vialink
+	Spelling string       `json:"spelling"`      // clean | slash | vialink | dstlink | dstlink-slash
 	Entries  []tarx.Entry `json:"entries"`
 	Fault    Fault        `json:"fault"`
 	Allow    []string     `json:"allow,omitempty"` // AllowSymlinkTarget values ({R}, {DST} placeholders)
@@ -87,6 +87,17 @@ func NewArena(c Case) (*Arena, error) {
 		a.Spelled = a.Dst + "/"
 	case "vialink":
 		a.Spelled = filepath.Join(r, "l1", "alias", "l3", "dst")
+	case "dstlink", "dstlink-slash":
+		// the destination path is itself a symlink to the directory; the link is an
+		// entry of dst's parent and belongs to the observed outside
+		if err := os.Symlink("dst", filepath.Join(filepath.Dir(a.Dst), "dstlink")); err != nil {
+			cleanup()
+			return nil, err
+		}
+		a.Spelled = filepath.Join(filepath.Dir(a.Dst), "dstlink")
+		if c.Spelling == "dstlink-slash" {
+			a.Spelled += "/"
+		}
 	default:
 		a.Spelled = a.Dst
 	}
@@ -287,14 +298,18 @@ var preTrees = []fsx.Tree{
 func GenCase(t *rapid.T, linkWeight, escapeWeight int, withFaults bool, withAllow bool) Case {
 	c := Case{}
 	c.Pre = rapid.SampledFrom(preTrees).Draw(t, "pre")
-	sp := rapid.IntRange(0, 9).Draw(t, "spelling")
+	sp := rapid.IntRange(0, 11).Draw(t, "spelling")
 	switch {
 	case sp < 7:
 		c.Spelling = "clean"
 	case sp < 8:
 		c.Spelling = "slash"
-	default:
+	case sp < 10:
 		c.Spelling = "vialink"
+	case sp < 11:
+		c.Spelling = "dstlink"
+	default:
+		c.Spelling = "dstlink-slash"
 	}
 	c.Entries = rapid.SliceOfN(rapid.Custom(func(t *rapid.T) tarx.Entry {
 		return GenEntry(t, "", linkWeight, escapeWeight)
